@@ -10,6 +10,10 @@ Direct oracle (no Lean): min / max of the real raw and gridded arrays against th
 limit 0 for EVERY state that declares none, a range-style entry's limit for each of its states); a rejected
 step returns the old state and time.
 
+Events next to explicit ODE terms: `tauLeap` hands x + V.n + pure(x,t)*tau to `_checkJump` whatever the counts n are
+(`tau_proposal_always_checked`, `tau_leap_success_iff`, `drift_only_leap_rejected`); the generator's drift models make leaps
+with n = 0 whose drift alone crosses a bound happen, and every recorded row (raw and gridded) is judged as for any other model.
+
 History and input form: `path_within_limits` is about one path as a pure function of (limits, configuration, x0, t0, draws);
 the sessions of stoch_common.run_session probe on the real code that nothing else enters (earlier calls and configuration,
 the form of x0 / t0 / the time argument, other instances), and every raw and gridded array of every call is judged.
@@ -18,6 +22,7 @@ import random
 
 import numpy as np
 
+from .. import exprs as E
 from .. import gen
 from . import stoch_common as SC
 
@@ -25,9 +30,10 @@ PROP = "C11"
 LEAN = {"module": "Pygom.Props.C11",
         "required": ["Pygom.C11.checkJump_reject_unchanged", "Pygom.C11.checkJump_accept_within",
                      "Pygom.C11.path_within_limits", "Pygom.C11.limits_default", "Pygom.C11.stateLims_aligned",
-                     "Pygom.C11.legacy_limits_counterexample"]}
-BUDGET = {"quick": {"models": 120, "sessions": 140},
-          "thorough": {"models": 1000, "sessions": 800, "max_steps": 2000, "steps": [40, 150, 600, 1500], "session_steps": [40, 150, 600]}}
+                     "Pygom.C11.legacy_limits_counterexample", "Pygom.C11.tau_proposal_always_checked",
+                     "Pygom.C11.tau_leap_success_iff", "Pygom.C11.drift_only_leap_rejected"]}
+BUDGET = {"quick": {"models": 120, "sessions": 140, "drift": 90, "drift_sessions": 30},
+          "thorough": {"models": 1000, "sessions": 800, "drift": 700, "drift_sessions": 250, "max_steps": 2000, "steps": [40, 150, 600, 1500], "session_steps": [40, 150, 600]}}
 RULE = ("bounded-rate event models (shared generator, incl. range-style state names) with small integer populations (0-12), "
         "lower / upper / two-sided / absent / default limits per declared state, magnitudes 1-3, x {exact, adaptive tau with "
         "epsilon in {0.01..0.3}, large fixed tau (2-10 expected events per step)} x 2 paths, scalar horizon (float, int, numpy scalar, "
@@ -38,6 +44,12 @@ RULE = ("bounded-rate event models (shared generator, incl. range-style state na
         "repeated on a fresh instance, every returned array kept and compared again at the end, caller's arrays unchanged); "
         "side effects the pure model excludes but the property does not state (caller's objects or model.initial_state written to, a "
         "repeated call or a fresh instance not reproducing a call) are tags and broken correspondence, never violations; "
+        "plus 90 models (thorough 700) and 30 sessions (250) that MIX events with explicit ODE terms: one state drifts (constant, "
+        "linear in itself, driven by another state; dyadic coefficients) towards a declared lower / upper / two-sided limit (a bound "
+        "exactly 0 written out or left to the default, lower bounds 1 / 2, upper-only), x0 0-6 units from the bound, slow events "
+        "(constant birth, linear death / transition, now and then an event moving the drifting state too; rate*tau well below 1) "
+        "under fixed tau in {1/4, 1/2, 1, 2}, adaptive tau or (10%) exact, so that leaps in which every event fires zero times "
+        "occur and the drift alone would leave the limits (counted in the tags zero_event_leap_with_drift:*); "
         "a case is non-trivial when some path has >= 5 accepted steps; rejected tau-leaps, accepted retries and rejected "
         "first-reaction steps are counted in the tags")
 ASSUMPTIONS = ["the initial state is within the declared limits (hypothesis of path_within_limits)",
@@ -50,6 +62,122 @@ def _forms(r, base, sim):
     nS = len(base["x0"])
     sim["x0_form"] = r.choice([f for f in SC.X0_FORMS if f != "scalar" or nS == 1])
     sim["t0_form"] = r.choice(["np_f64"] * 6 + ["np_i64", "np_i64", "np_f32", "np_f32"])
+
+
+# ---- events NEXT TO explicit ODE terms: the drift alone carries a state to a declared bound -----------------------------------
+# `tauLeap` proposes x + V.n + pure(x,t)*tau and hands it to `_checkJump`; in the Lean model (`Stoch.tauAttempt`) the proposal
+# checked is the same sum, so `path_within_limits` covers a leap in which every event fires zero times and only the drift
+# moves the state (`C11.drift_only_leap_rejected`).  These models make such leaps happen: slow events (rate*tau well below 1),
+# a drift towards a lower / upper / two-sided limit (a bound exactly 0 written out or left to the default), x0 a few leaps away
+# from the bound.  All coefficients and fixed leap sizes are dyadic, so x + pure*tau is exact in doubles.
+DRIFT_FORMS = ["down_const", "down_const", "up_const", "up_const", "down_linear", "up_by_other", "down_by_other"]
+
+
+def gen_drift_case(r):
+    others = r.sample([s for s in gen.STATE_POOL if s != "W"], r.randint(1, 2))
+    W = "W"
+    decl = others + [W]
+    r.shuffle(decl)
+    S = others[0]
+    form = r.choice(DRIFT_FORMS)
+    k, b, g = "k", "b", "g"
+    # slow events: a constant-rate birth (never switches off, so a path is not stopped by "all rates zero"), a linear death,
+    # now and then a transition or an event that also moves W
+    procs = [{"rate": E.var(b), "kind": "const", "transitions": [{"type": "B", "origin": None, "dest": S, "mag": E.num(1)}]}]
+    if r.random() < 0.6:
+        procs.append({"rate": E.mul(E.var(g), E.var(S)), "kind": "linear",
+                      "transitions": [{"type": "D", "origin": S, "dest": None, "mag": E.num(r.choice([1, 1, 2]))}]})
+    if len(others) == 2 and r.random() < 0.6:
+        procs.append({"rate": E.mul(E.var(g), E.var(S)), "kind": "linear",
+                      "transitions": [{"type": "T", "origin": S, "dest": others[1], "mag": E.num(1)}]})
+    up = form.startswith("up")
+    if r.random() < 0.3:
+        # an event that moves W as well (against the drift or with it)
+        procs.append({"rate": E.var(b), "kind": "const",
+                      "transitions": [({"type": "B", "origin": None, "dest": W, "mag": E.num(r.choice([1, 2]))} if r.random() < 0.5 else
+                                       {"type": "D", "origin": W, "dest": None, "mag": E.num(1)})]})
+    r.shuffle(procs)
+    w_in_rates = False                                   # no RATE depends on W: it may go without a lower limit
+    expr = {"down_const": E.neg(E.var(k)), "up_const": E.var(k), "down_linear": E.neg(E.mul(E.var(k), E.var(W))),
+            "up_by_other": E.mul(E.var(k), E.add(E.num(1), E.var(S))), "down_by_other": E.neg(E.mul(E.var(k), E.add(E.num(1), E.var(S))))}[form]
+    odes = [{"state": W, "expr": expr}]
+    if len(others) == 2 and r.random() < 0.25:
+        odes.append({"state": others[1], "expr": E.var(k) if r.random() < 0.5 else E.neg(E.var(k))})
+    # limits of W: the bound the drift runs into, written in every way the declaration allows
+    if up:
+        hi = r.choice([3, 5, 8, 12, 40])
+        wlim = r.choice([(0, hi), (0, hi), (None, hi), (1, hi)])
+        w0 = max(hi - r.choice([0, 1, 2, 3, 6]), (wlim[0] or 0))
+    else:
+        lo = r.choice([0, 0, 0, 1, 2])
+        hi = lo + r.choice([6, 10, 40])
+        wlim = r.choice([None, (0, None), (0, hi)]) if lo == 0 else r.choice([(lo, None), (lo, hi)])
+        w0 = lo + r.choice([0, 1, 2, 3, 6])
+    lims = []
+    for n in decl:
+        if n == W:
+            lims.append(wlim)
+        else:
+            lims.append(r.choice([None, None, (0, None), (0, r.choice([5, 10, 30])), (0, None)]))
+    abstract = {"decl_states": decl, "states": list(decl), "params": [b, g, k], "derived": [], "procs": procs, "odes": odes, "lims": lims}
+    spec, meta = gen.make_spec(r, abstract, gen.ALL_ROUTES)
+    x0 = []
+    for n, l in zip(decl, lims):
+        if n == W:
+            x0.append(int(w0))
+        else:
+            top = l[1] if (l is not None and l[1] is not None) else 12
+            x0.append(r.randint(0, min(6, top)))
+    pv = {b: r.choice([0.03125, 0.0625, 0.125, 0.25]), g: r.choice([0.03125, 0.0625, 0.125]), k: r.choice([0.5, 1.0, 2.0, 3.0])}
+    tot = SC.total_rate(spec, meta, x0, pv)
+    if tot is None or tot <= 0:
+        return None
+    return {"spec": spec, "meta": meta, "x0": x0, "params": pv, "tot0": tot, "has_ode": True, "drift": form}
+
+
+def drift_settings(r, base, mode):
+    """slow events and a leap in which the drift moves W by 1/8 .. 6 units: most leaps fire no event at all"""
+    t0 = r.choice([0.0, 0.0, 1.0, 2.5])
+    T = t0 + r.choice([6.0, 10.0, 16.0])
+    s = {"mode": mode, "t0": t0, "T": float(T), "np_seed": r.randrange(2 ** 31), "epsilon": None, "pre_tau": None}
+    if mode == "tau_fixed":
+        s["pre_tau"] = r.choice([0.25, 0.5, 1.0, 2.0])
+    if mode != "exact" and r.random() < 0.5:
+        s["epsilon"] = r.choice([0.03, 0.1, 0.3])
+    return s
+
+
+def drift_cases(rng, n, n_sessions, budget):
+    cases = []
+    while len(cases) < n:
+        r = random.Random(rng.getrandbits(64))
+        base = gen_drift_case(r)
+        if base is None:
+            continue
+        c = dict(base)
+        c["sim"] = drift_settings(r, base, gen.wchoice(r, [("tau_fixed", 5), ("tau_adaptive", 4), ("exact", 1)]))
+        if r.random() < 0.4:
+            c["sim"]["time"] = SC.gen_grid_time(r, c["sim"]["t0"], c["sim"]["T"], past=(1, 1, 1, 2))
+        else:
+            c["sim"]["time"] = SC.gen_scalar_time(r, c["sim"]["T"])
+        c["sim"]["T"] = c["sim"]["time"]["values"][-1]
+        _forms(r, base, c["sim"])
+        c["max_steps"] = budget.get("max_steps", SC.MAX_STEPS)
+        cases.append(c)
+    k = 0
+    while k < n_sessions:
+        r = random.Random(rng.getrandbits(64))
+        base = gen_drift_case(r)
+        if base is None:
+            continue
+        c = dict(base)
+        c["sim"] = drift_settings(r, base, r.choice(["tau_fixed", "tau_fixed", "tau_adaptive"]))
+        _forms(r, base, c["sim"])
+        c["session"] = SC.gen_session(r, base, c["sim"], lims=SC.declared_limits(base["spec"]), grid_share=0.4, exact_share=0.2)
+        c["max_steps"] = budget.get("max_steps", SC.MAX_STEPS)
+        cases.append(c)
+        k += 1
+    return cases
 
 
 def make_cases(rng, tier, budget):
@@ -87,11 +215,13 @@ def make_cases(rng, tier, budget):
         c["max_steps"] = budget.get("max_steps", SC.MAX_STEPS)
         cases.append(c)
         n += 1
+    cases += drift_cases(rng, budget.get("drift", 0), budget.get("drift_sessions", 0), budget)
     return cases
 
 
 def search_cases(rng, tier, budget):
-    return make_cases(rng, tier, {**budget, "models": budget["models"] * 3, "sessions": budget.get("sessions", 0) * 3})
+    return make_cases(rng, tier, {**budget, "models": budget["models"] * 3, "sessions": budget.get("sessions", 0) * 3,
+                                  "drift": budget.get("drift", 0) * 3, "drift_sessions": budget.get("drift_sessions", 0) * 3})
 
 
 def run_case(case):
@@ -105,8 +235,9 @@ def run_case(case):
     for _, (lo, hi) in lims:
         tags.append("lim:%s" % ("none" if lo is None and hi is None else "upper" if lo is None else "lower" if hi is None else "two-sided"))
     if any(tr["mag"] != ["num", "1"] for p in meta["procs"] for tr in p["transitions"]): tags.append("magnitude>1")
+    if case.get("drift"): tags += ["events+explicit-ode", "drift:" + case["drift"]]
     where = lambda i: decl
-    S = {"lr": None, "accepted": 0, "rej_tau": 0, "retry_ok": 0, "rej_first": 0}
+    S = {"lr": None, "accepted": 0, "rej_tau": 0, "retry_ok": 0, "rej_first": 0, "quiet": 0, "quiet_rej": 0}
 
     def judge(call, model):
         sim, exact, tr = call.sim, call.exact, call.tr
@@ -165,6 +296,11 @@ def run_case(case):
                 mism.append({"what": "trace:unparsed", "detail": "%s: %s" % (type(exc).__name__, exc)})
                 st = {"stop": None, "rejected_tau": 0, "retries_ok": 0}
             S["rej_tau"] += st["rejected_tau"]; S["retry_ok"] += st["retries_ok"]; S["rej_first"] += (st["stop"] == "rejected")
+            if not exact:
+                # leaps in which every event fired zero times while the explicit ODE terms moved the state (accepted / rejected)
+                for it in its:
+                    if it.get("complete") and it.get("pois") and not any(v for _, v in it["pois"]) and np.any(np.ravel(it.get("pure", 0.0))):
+                        S["quiet_rej" if it.get("retry") else "quiet"] += 1
             arrays = [("raw states", jr["X"])]
             arrays.append(("gridded states" if gridded else "returned states", np.array(Xs[p], float)))
             n_before = len(viol)
@@ -185,11 +321,14 @@ def run_case(case):
     if S["rej_tau"]: tags.append("tau_rejected")
     if S["retry_ok"]: tags.append("retry_accepted")
     if S["rej_first"]: tags.append("first_reaction_rejected")
+    if S["quiet"]: tags.append("zero_event_leap_with_drift:accepted")
+    if S["quiet_rej"]: tags.append("zero_event_leap_with_drift:rejected(the drift alone leaves the limits)")
     tags.append("rejections=%s" % ("0" if n_rej == 0 else "1-5" if n_rej <= 5 else ">5"))
     return {"nontrivial": S["accepted"] >= 5, "mismatches": mism, "violations": viol, "tags": tags,
             "sample": {"spec": spec, "x0": case["x0"], "params": case["params"], "sim": case["sim"], "session": case.get("session"),
                        "accepted_steps": S["accepted"], "rejected_tau": S["rej_tau"], "retries_accepted": S["retry_ok"],
-                       "first_reaction_rejected": S["rej_first"]}}
+                       "first_reaction_rejected": S["rej_first"], "zero_event_leaps_with_drift": S["quiet"],
+                       "zero_event_leaps_rejected_for_drift": S["quiet_rej"]}}
 
 
 def check_rejections(model, its, jr, exact, sl, viol, mism, modek, lims=None, max_replays=6):
